@@ -80,8 +80,17 @@ def scenario_for(seed, index, tier):
         via = 'handler'
         conns[0]['play'] = conns[0]['play'] + [
             ['expect', len(all_writes[0])], ['close']]
+    holder = None
+    if rng.random() < 0.2:
+        # another thread legitimately holds the write lock for a while during
+        # the login (a forced write whose early outgoing listener is slow
+        # and then drops the packet): the networking thread's own forced
+        # encryption response has to wait for it
+        holder = {'hold_us': rng.choice([1000, 30000, 300000]),
+                  'times': rng.choice([1, 3])}
     return {
         'kind': 'login', 'proto': proto, 'compress': compress, 'via': via,
+        'holder': holder,
         'logins': logins, 'items': all_items, 'writes': all_writes,
         'server': {'conns': conns},
         'net': {'latency_us': rng.choice([50, 500]), 'segment': seg,
@@ -504,6 +513,26 @@ def execute(scenario, tape):
                     st['mixed'].append((ln, bytes(got)))
                 st['logs'][ln].append((p.channel, bytes(p.data).hex()))
         conn.register_packet_listener(on_packet, Packet, early=True)
+        markers = []
+
+        def on_marker(p):
+            if any(p is m for m in markers):
+                w.sleep(scenario['holder']['hold_us'])
+                from minecraft.exceptions import IgnorePacket
+                raise IgnorePacket
+
+        def lock_holder():
+            w.wait_until(lambda: st.get('connect_returned') or st['errs'],
+                         30000000)
+            for _ in range(scenario['holder']['times']):
+                m = serverbound.play.KeepAlivePacket(keep_alive_id=0)
+                markers.append(m)
+                w.api('held-write', conn.write_packet, m, force=True)
+                w.sleep(200)
+        if scenario.get('holder'):
+            conn.register_packet_listener(on_marker, Packet, early=True,
+                                          outgoing=True)
+            w.sim.spawn(lock_holder, 'user1')
 
         def user():
             for k in range(scenario['logins']):
@@ -513,6 +542,7 @@ def execute(scenario, tape):
                     st['in_play'] = False
                     st['closing'] = False
                     r = w.api('connect', conn.connect)
+                    st['connect_returned'] = True
                     if not r.ok:
                         st['errs'].append(r.exc)
                         return
